@@ -33,7 +33,7 @@ type wCase struct {
 	Styles  []wStyle `json:"styles"`
 	Regions [][]int  `json:"regions"`
 	Meta    bool     `json:"meta"`
-	Keys    int      `json:"keys"` // 0: map key = ID; 1: foreign keys; 2: foreign keys, the first two styles / regions share one ID
+	Keys    int      `json:"keys"` // 0: map key = ID; 1: foreign keys; 2: foreign keys, the first two styles / regions share one ID; 3: key = ID, pairs differing in letter case only
 	Scheme  int      `json:"-"`    // naming scheme of the definitions (set by the driver from the case number)
 }
 
@@ -45,7 +45,13 @@ var styleNames = [][]string{
 	{"Zed", "default", "Main", "xtra", "A", "mid"},
 }
 
+// keys 3: identifiers (and keys) of which the first two differ in letter case only
+var caseNames = []string{"main", "Main", "other", "Other", "zed", "Zed"}
+
 func styleName(c wCase, i int) string {
+	if c.Keys == 3 {
+		return caseNames[i%6]
+	}
 	if c.Keys == 2 && i == 1 {
 		i = 0
 	}
@@ -54,13 +60,16 @@ func styleName(c wCase, i int) string {
 
 // styleKey / regionKey: the map key of the i-th style / region; foreign keys sort differently from the IDs
 func styleKey(c wCase, i int) string {
-	if c.Keys == 0 {
+	if c.Keys == 0 || c.Keys == 3 {
 		return styleName(c, i)
 	}
 	return fmt.Sprintf("k%d-%s", (7-i)%7, styleNames[c.Scheme%len(styleNames)][i%6])
 }
 
 func regionID(c wCase, i int) string {
+	if c.Keys == 3 {
+		return []string{"top", "Top", "bottom", "Bottom", "mid", "Mid"}[i%6]
+	}
 	if c.Keys == 2 && i == 1 {
 		i = 0
 	}
@@ -68,7 +77,7 @@ func regionID(c wCase, i int) string {
 }
 
 func regionKey(c wCase, i int) string {
-	if c.Keys == 0 {
+	if c.Keys == 0 || c.Keys == 3 {
 		return regionID(c, i)
 	}
 	return fmt.Sprintf("q%d", 9-i)
@@ -102,6 +111,8 @@ func buildW(c wCase, r *rand.Rand) *astisub.Subtitles {
 		rd := time.Date(2019, 7, 8, 0, 0, 0, 0, time.UTC)
 		s.Metadata = &astisub.Metadata{Framerate: 25, STLDisplayStandardCode: "0", STLCreationDate: &cd, STLRevisionDate: &rd, Title: "T",
 			SSAScriptType: "v4.00+", Language: astisub.LanguageEnglish, STLCountryOfOrigin: "NOR",
+			// comments as a program may set them: one of them runs over two lines
+			Comments:           []string{"first comment", "second comment\ncontinued on another line", " padded "},
 			WebVTTTimestampMap: &astisub.WebVTTTimestampMap{Local: time.Second, MpegTS: 90000}}
 	}
 	order := r.Perm(len(c.Styles))
@@ -254,7 +265,7 @@ func cmdWriters(args []string) error {
 			c.Regions = append(c.Regions, rg)
 		}
 		c.Meta = rr.Intn(2) == 0
-		c.Keys = rr.Intn(3)
+		c.Keys = rr.Intn(4)
 		cases = append(cases, c)
 	}
 	for i := range cases {
